@@ -134,6 +134,71 @@ def mutants2(path, rel):
             yield emit({"file": rel, "line": ln + 1, "op": "swap-args", "before": st, "after": new.strip()}, lines[:ln] + [new] + lines[ln + 1:])
 
 
+def mutants3(path, rel):
+    """third operator set: identifier swaps inside one function -- a local / parameter replaced by another local of the same
+    function, a `self.field` replaced by another field used in the same function (wrong-variable slips such as `buf[idx..]`
+    for `buf[end..]`).  Most do not type-check; the survivors are the interesting ones."""
+    src = open(path).read()
+    cut = src.find("#[cfg(test)]")
+    body = src if cut < 0 else src[:cut]
+    tail = src[cut:] if cut >= 0 else ""
+    lines = body.split("\n")
+    # crude function extents: from a line containing `fn name(` to the line where the brace depth returns
+    fns = []
+    i = 0
+    while i < len(lines):
+        if re.search(r"\bfn\s+\w+", lines[i]) and not lines[i].strip().startswith("//"):
+            depth = 0
+            started = False
+            for k in range(i, len(lines)):
+                c = lines[k].split("//")[0]
+                depth += c.count("{") - c.count("}")
+                if "{" in c:
+                    started = True
+                if c.strip().endswith(";") and not started:
+                    break
+                if started and depth <= 0:
+                    fns.append((i, k))
+                    break
+            i = (fns[-1][1] + 1) if fns and fns[-1][0] == i else i + 1
+        else:
+            i += 1
+    for (a, b) in fns:
+        text = "\n".join(lines[a:b + 1])
+        locs = set(re.findall(r"\blet\s+(?:mut\s+)?([a-z_]\w*)\b", text))
+        hdr = " ".join(lines[a:min(a + 6, b + 1)])
+        mh = re.search(r"fn\s+\w+[^(]*\(([^)]*)\)", hdr)
+        if mh:
+            for prm in mh.group(1).split(","):
+                mp = re.match(r"\s*(?:mut\s+)?([a-z_]\w*)\s*:", prm)
+                if mp:
+                    locs.add(mp.group(1))
+        locs -= {"self", "_"}
+        fields = set(re.findall(r"\bself\.([a-z_]\w*)\b(?!\s*\()", text))
+        for ln in range(a + 1, b + 1):
+            line = lines[ln]
+            st = line.strip()
+            if not st or st.startswith("//") or st.startswith("#"):
+                continue
+            code = line.split("//")[0]
+            for m in re.finditer(r"(?<![\w.])([a-z_]\w*)\b(?!\s*[(:!])", code):
+                v = m.group(1)
+                if v not in locs or re.match(r"\s*let\s+(?:mut\s+)?%s\b" % re.escape(v), code):
+                    continue
+                for w in sorted(locs):
+                    if w == v:
+                        continue
+                    new = code[:m.start(1)] + w + code[m.end(1):]
+                    yield ({"file": rel, "line": ln + 1, "op": "swap-local", "before": st, "after": new.strip()}, "\n".join(lines[:ln] + [new] + lines[ln + 1:]) + tail)
+            for m in re.finditer(r"\bself\.([a-z_]\w*)\b(?!\s*\()", code):
+                v = m.group(1)
+                for w in sorted(fields):
+                    if w == v:
+                        continue
+                    new = code[:m.start(1)] + w + code[m.end(1):]
+                    yield ({"file": rel, "line": ln + 1, "op": "swap-field", "before": st, "after": new.strip()}, "\n".join(lines[:ln] + [new] + lines[ln + 1:]) + tail)
+
+
 def main():
     ap = argparse.ArgumentParser()
     ap.add_argument("--out", required=True)
@@ -143,7 +208,8 @@ def main():
     ap.add_argument("--work", default="/root/scratch/mutsweep")
     ap.add_argument("--stride", type=int, default=1, help="take every n-th mutant")
     ap.add_argument("--offset", type=int, default=0)
-    ap.add_argument("--set", type=int, default=1, help="1 = operator/constant mutations, 2 = statement deletion / dropped checks / negated conditions / swapped arguments")
+    ap.add_argument("--set", type=int, default=1, help="1 = operator/constant mutations, 2 = statement deletion / dropped checks / negated conditions / swapped arguments, 3 = identifier swaps")
+    ap.add_argument("--fast-compile", action="store_true", help="cargo check before cargo test (most identifier swaps do not type-check)")
     a = ap.parse_args()
     files = a.files.split(",") if a.files else FILES
     work = a.work
@@ -169,7 +235,7 @@ def main():
     try:
         for rel in files:
             orig = open(os.path.join("/repo", rel)).read()
-            for info, text in (mutants if a.set == 1 else mutants2)(os.path.join("/repo", rel), rel):
+            for info, text in {1: mutants, 2: mutants2, 3: mutants3}[a.set](os.path.join("/repo", rel), rel):
                 idx += 1
                 if (idx - a.offset) % a.stride != 0:
                     continue
@@ -183,6 +249,13 @@ def main():
                 info["id"] = mid
                 open(os.path.join(work, rel), "w").write(text)
                 t0 = time.time()
+                if a.fast_compile:
+                    c0 = sh(["cargo", "check", "--offline", "-q"], cwd=work, env=env, timeout=120)
+                    if c0.returncode != 0:
+                        info["tests_rc"] = 101
+                        out.write(json.dumps(info) + "\n")
+                        open(os.path.join(work, rel), "w").write(orig)
+                        continue
                 b = sh(["cargo", "test", "--offline", "-q"], cwd=work, env=env, timeout=120)
                 info["tests_rc"] = b.returncode
                 info["tests_s"] = round(time.time() - t0, 1)
